@@ -391,3 +391,40 @@ def api_wiring(ctx, rule, only=None, floor=None):
     if floor is not None:
         rep.floor('stage constructions in the combinator methods', n, floor)
     return n
+
+
+def ctor_stores_exact(ctx, rule, only=None):
+    """a constructor parameter is stored as given: `self.x = p or <default>` / `self.x = p if p else <default>` replaces
+    every falsy value the caller passed on purpose (an empty tuple of exception types, 0, '') by something else. The
+    signature default is the only default. Violations name the store; other transformations are not judged here."""
+    import ast as _ast
+    from .. import astutil as _A
+    rep = ctx.report
+    n = 0
+    for cls in family(ctx):
+        if only is not None and cls.name not in only:
+            continue
+        mem = cls.own('__init__')
+        if mem is None or not mem.is_function:
+            continue
+        fn = mem.node
+        params = [a.arg for a in fn.args.posonlyargs + fn.args.args + fn.args.kwonlyargs][1:]
+        for st in _A.walk_local(fn):
+            if not (isinstance(st, _ast.Assign) and _A.is_self_attr(st.targets[0])):
+                continue
+            v = st.value
+            used = [p for p in params if p in _A.names_in(v)]
+            if not used:
+                continue
+            n += 1
+            bad = None
+            if isinstance(v, _ast.BoolOp) and isinstance(v.op, _ast.Or) and isinstance(v.values[0], _ast.Name) and v.values[0].id in params:
+                bad = v.values[0].id
+            if isinstance(v, _ast.IfExp):
+                t, _neg = _A.strip_not(v.test)
+                if isinstance(t, _ast.Name) and t.id in params:
+                    bad = t.id
+            rep.ob(rule, key(cls, '__init__', 'stores-parameter-as-given(%s)' % st.targets[0].attr), bad is None, st,
+                   '' if bad is None else 'self.%s = %s: a falsy %s passed by the caller (empty tuple, 0, \'\') is silently replaced'
+                   % (st.targets[0].attr, _A.short(v, 50), bad), nontrivial=False)
+    return n
